@@ -1,2 +1,7 @@
 import PqlModel.Props.C15
 #print axioms Pql.C15.C15_count
+#print axioms Pql.C15.C15_join
+#print axioms Pql.C15.C15_scan_local
+#print axioms Pql.C15.C15_no_semi_in_piece
+#print axioms Pql.C15.C15_piece_tokens
+#print axioms Pql.C15.C15_piece_tokens_at
